@@ -133,6 +133,7 @@ type Scenario struct {
 	SIcpt  int    `json:"sicpt"`  // server built with that many pass-through unary and stream interceptors (1: single, >1: chained)
 	CIcpt  int    `json:"cicpt"`  // the same for the client connection
 	SStats int    `json:"sstats"`
+	Anon   bool   `json:"anon"` // README: "If names are not desirable ... an empty string for the destination and server names"
 	Steps  []Step `json:"steps"`
 }
 
@@ -474,6 +475,9 @@ func (rt *runtimeS) defaults() {
 	}
 	if sc.NCli == 0 {
 		sc.NCli = 1
+	}
+	if sc.Anon {
+		sc.Srv, sc.Dst = "", ""
 	}
 }
 
